@@ -547,6 +547,25 @@ func (env *Zlisp) CallFunction(function *SexpFunction, nargs int) error {
 		prehook(env, function.name, expressions)
 	}
 
+	// a dot path handed as an argument is resolved here, in the caller's
+	// scope, not while the callee binds its parameters.
+	for i := 0; i < nargs; i++ {
+		idx := env.datastack.tos - i
+		if idx < 0 {
+			break
+		}
+		de, isDE := env.datastack.elements[idx].(DataStackElem)
+		if !isDE {
+			continue
+		}
+		if sym, ok := de.expr.(*SexpSymbol); ok && sym.isDot {
+			v, err := dotGetSetHelper(env, sym.name, nil)
+			if err != nil {
+				return err
+			}
+			env.datastack.elements[idx] = DataStackElem{v}
+		}
+	}
 	// do name and type checking
 	if function.inputTypes != nil && !function.varargs {
 		err := env.FunctionCallNameTypeCheck(function, &nargs)
